@@ -70,7 +70,7 @@ def mutant_of(case):
 
 
 def run_equiv_check(pid, tier, t0, items, level, rule, assumptions, extra_cov=None, expect_mutant=True,
-                    violation_filter=None, batches=8):
+                    violation_filter=None, batches=8, outer=None):
     """items: list of {name, tag, case, sample}.  Runs Equiv2, reports, writes evidence."""
     rep = Reporter(pid)
     cases = [it["case"] for it in items]
@@ -123,11 +123,12 @@ def run_equiv_check(pid, tier, t0, items, level, rule, assumptions, extra_cov=No
         "inconclusive": inconclusive,
         "tlc_runs": st["tlc_runs"],
         "binding_self_test": "mutant artefact rejected" if mut_idx is not None else "n/a",
-        "known_findings_hit": sorted(rep.known),
+        "known_findings_hit": sorted(set(rep.known) | set(outer.known if outer is not None else [])),
     }
     if extra_cov:
         cov.update(extra_cov)
-    write_evidence(pid, tier, level, cov, time.time() - t0, violations=nviol, assumptions=assumptions)
+    # outer: the caller's reporter (verdicts of the check's other specifications); its findings belong to the same evidence
+    write_evidence(pid, tier, level, cov, time.time() - t0, violations=nviol + (len(outer.violations) if outer is not None else 0), assumptions=assumptions)
     return rep.finish()
 
 
@@ -407,7 +408,7 @@ def check_c04(tier, t0):
                 "allocator_decisions_explained_by_RegAlloc_tla": "%d of %d" % (ra_agree, ra_total)}
     rc = run_equiv_check("C04", tier, t0, items, "model_checking", rule,
                          ASSUME_IC10 + ["the virtual-register stream exported by hook H1 is the allocator's input (checked: the post stream equals the emitted text)"],
-                         extra_cov=rc_extra)
+                         extra_cov=rc_extra, outer=rep)
     rc2 = rep.finish()
     return 1 if (rc or rc2) else 0
 
@@ -569,7 +570,7 @@ def check_c05(tier, t0):
             "static: Labels.tla Resolve(kept) must equal the removed-labels text token for token, every referenced label "
             "defined exactly once, every numeric target inside the program; dynamic: both texts run as IC10 machines")
     rc = run_equiv_check("C05", tier, t0, items, "model_checking", rule, ASSUME_IC10,
-                         extra_cov={"static_cases": len(static), "static_states": static_states})
+                         extra_cov={"static_cases": len(static), "static_states": static_states}, outer=rep)
     rc2 = rep.finish()
     return 1 if (rc or rc2) else 0
 
@@ -918,7 +919,7 @@ def check_c13(tier, t0):
     rc2 = 0
     if items:
         rc = run_equiv_check("C13", tier, t0, items, "translation_validation", rule, ASSUME_IC10,
-                             extra_cov={"programs": len(items), "disagreements_checked": len(items)})
+                             extra_cov={"programs": len(items), "disagreements_checked": len(items)}, outer=rep)
     else:
         write_evidence("C13", tier, "translation_validation", {"evaluations": len(meta), "distinct_nontrivial": 0, "rule": rule,
                                                                "samples": [fam[0][1]]}, time.time() - t0, violations=len(rep.violations))
